@@ -1442,7 +1442,16 @@ def check_forget_scope(ck, cm: CacheModel):
         # call, a bound method, getattr(layer, name), operator.methodcaller(name, ..), a loop over the layers
         fa = FA(ck, effective_function(ck, ck.fn(BACKEND_BASE + "." + name)))
         mdn, md = _layer_application_nodes(ck, fa, name, "_metadata_source", None)
-        okm = bool(mdn) and fa.cfg.must_pass(mdn, fa.cfg.exit)
+        # (a branch taken because the metadata source itself is missing has nothing to forget in: the loop over the layers
+        # written out tests each layer for None before applying the operation to it)
+        def _layer_present(a, _b, l, fa=fa):
+            nd = fa.cfg.node(a)
+            if nd.kind == "test" and l in ("T", "F") and isinstance(nd.ast, ast.Compare):
+                (txt, pol) = fa._literal(nd.ast, a, l == "T")
+                if pol and txt == "self._metadata_source is None":
+                    return False
+            return True
+        okm = bool(mdn) and fa.cfg.must_pass(mdn, fa.cfg.exit, edge_ok=_layer_present)
         ck.ob(R, fa.key(None, "metadata-source"), okm, "metadata source %s on every path" % name if okm else
               "%s does not reach self._metadata_source.%s on every normal path" % (name, name), fa.where())
         no_cache = _through_properties(ck, fa.fi.cls, _no_cache)
